@@ -1,2 +1,100 @@
--- stub: replaced when the area is built
-def main : IO Unit := pure ()
+import Nstd.Common.Basic
+import Nstd.Server.ModelC13
+/-
+  Line protocol of the Server area.  Two dialects share one driver (and one harness):
+
+  C13 (one client on a socket pair; every op prints
+       `<res> sb=<send buffer size> su=<suspended> in=<poll interest> cb=<callbacks> tx=<intercepted sends>`):
+     write <hex> <outcome>          Client::write; outcome answers the send() it may issue
+     ready <none|r|w|rw> <outcome>  one round of run(): closing loop, one poll (kernel reports the
+                                    selected subset of the really-ready events), dispatch
+     read <max>                     Client::read
+     peersend <hex> / peerread      the peer writes / reads everything that arrived
+     suspend / resume
+     outcome = wb | err | all | half | <count>
+-/
+open Nstd.Common
+namespace Nstd.Server
+
+namespace C13
+
+def parseOutcome (t : String) : Option Outcome :=
+  if t == "wb" then some .wb
+  else if t == "err" then some .err
+  else if t == "all" then some .all
+  else if t == "half" then some .half
+  else t.toNat?.map .cnt
+
+def parseSel (t : String) : Option (Bool × Bool) :=
+  if t == "none" then some (false, false)
+  else if t == "r" then some (true, false)
+  else if t == "w" then some (false, true)
+  else if t == "rw" then some (true, true)
+  else none
+
+def parseOp (ws : List String) : Option Op :=
+  match ws with
+  | ["write", d, o] => do pure (.write (← fromHex d) (← parseOutcome o))
+  | ["ready", sel, o] => do
+    let (r, w) ← parseSel sel
+    pure (.ready r w (← parseOutcome o))
+  | ["read", m] => do pure (.read (← m.toNat?))
+  | ["peersend", d] => do pure (.peersend (← fromHex d))
+  | ["peerread"] => some .peerread
+  | ["suspend"] => some .suspend
+  | ["resume"] => some .resume
+  | _ => none
+
+def b01 (b : Bool) : String := if b then "1" else "0"
+
+def resStr : Res → String
+  | .wrote r p => s!"w{b01 r} {p}"
+  | .ok => "ok"
+  | .readRes r d => s!"rd{b01 r} {toHex d}"
+  | .got d => s!"got {toHex d}"
+  | .dead => "dead"
+
+def interestStr : Interest → String
+  | none => "none"
+  | some (false, false) => "-"
+  | some (true, false) => "r"
+  | some (false, true) => "w"
+  | some (true, true) => "rw"
+
+def cbStr (cbs : List Cb) : String :=
+  if cbs.isEmpty then "-" else
+    String.join (cbs.map fun | .onRead => "R" | .onWrite => "W" | .onClosed => "C")
+
+def sendStr : Nat × SendRes → String
+  | (n, .wouldblock) => s!"{n}>wb"
+  | (n, .error) => s!"{n}>err"
+  | (n, .sent k) => s!"{n}>{k}"
+
+def txStr (l : List (Nat × SendRes)) : String :=
+  if l.isEmpty then "-" else ",".intercalate (l.map sendStr)
+
+def obs (s : St) (o : Out) : String :=
+  if o.res == .dead then "dead" else
+  let sb := if s.dead then 0 else s.backlog.length
+  let su := if s.dead then false else s.suspended
+  s!"{resStr o.res} sb={sb} su={b01 su} in={interestStr s.interest} cb={cbStr o.cbs} tx={txStr o.sends}"
+
+end C13
+
+structure DState where
+  s13 : C13.St := C13.init
+
+def stepLine (st : DState) (ws : List String) : DState × String :=
+  match ws with
+  | ["reset"] => ({}, "ok")
+  | _ =>
+    match C13.parseOp ws with
+    | some op =>
+      match C13.step st.s13 op with
+      | some (s', o) => ({ st with s13 := s' }, C13.obs s' o)
+      | none => (st, "bad-op")
+    | none => (st, "bad-op")
+
+end Nstd.Server
+
+def main : IO Unit := Nstd.Common.ioLoop ({} : Nstd.Server.DState) Nstd.Server.stepLine
